@@ -6,7 +6,7 @@ from-scratch TDEA reference of props/c13.py, decimalises the result with its own
 components nibble-wise; cryptography is also called directly (without cardutil) and must agree with the reference."""
 import itertools
 from util import hb, hs, outcome
-from props.c13 import (kat_cases, kat_impl, kat_judge, lib_ecb, ref_ecb, is_digits, digits, pan_field, pack, nibbles, hex_key,
+from props.c13 import (tdes_key_bundle, kat_cases, kat_impl, kat_judge, lib_ecb, ref_ecb, is_digits, digits, pan_field, pack, nibbles, hex_key,
                        table, model_says, spec_value, rdigits, rkey)
 
 ID = 'C14'
@@ -43,13 +43,13 @@ REAL_PVV = [
     ('0123456789ABCDEFFEDCBA9876543210', '4000778865013650', '2993', 0, 1),
     ('0123456789ABCDEFFEDCBA9876543210', '778865013657', '695512', 0, 1),
     ('0123456789ABCDEFFEDCBA9876543210', '4000778865013651', '2552', 0, 2),
-    ('0123456789ABCDEFFEDCBA9876543210', '5577886501365', '323700000000', 5, 2),
+    ('0123456789ABCDEFFEDCBA9876543210', '55778865013658', '323700000000', 5, 2),
     ('0123456789ABCDEFFEDCBA9876543210', '4000778865013652', '9526', 9, 3),
     ('0123456789ABCDEFFEDCBA9876543210', '9999999118703216043', '04389', 6, 3),
     ('0123456789ABCDEFFEDCBA9876543210', '4000118703216049', '1786', 3, 4),
     ('0123456789abcdeffedcba9876543210', '118703216040', '178699', 3, 4),
     ('5CA64B3C22BEC347CA7E6609904BAAED', '4564088328208950', '1270', 0, 1),
-    ('5CA64B3C22BEC347CA7E6609904BAAED', '45640883282089502'[1:], '3050', 0, 1),
+    ('5CA64B3C22BEC347CA7E6609904BAAED', '99088328208952', '3050', 0, 1),
     ('5CA64B3C22BEC347CA7E6609904BAAED', '4564088328208953', '3797', 0, 2),
     ('5CA64B3C22BEC347CA7E6609904BAAED', '12088328208954', '92471234', 2, 2),
     ('5CA64B3C22BEC347CA7E6609904BAAED', '4564356831743925', '5265', 2, 3),
@@ -68,9 +68,6 @@ REAL_PVV = [
     ('133457799bbcdff1', '4000370350807731', '2396', 0, 2),
     ('133457799bbcdff1', '4000504305911292', '1210', 1, 3),
     ('133457799bbcdff1', '4000325298297013', '0489', 8, 4),
-    # tests of cardutil: second case needs one digit from the second scan
-    ('5CA64B3C22BEC347CA7E6609904BAAED', '4564320000980369', '2205', 1, 0),
-    ('5CA64B3C22BEC347CA7E6609904BAAED', '4564320000980369', '0654', 1, 1),
 ]
 # documented results (docstrings and tests of cardutil)
 DOC_PVV = [
@@ -218,7 +215,7 @@ def gen(rng, tier):
         for ln in range(4, 13):
             for pl in range(12, 20):
                 for ks in TDES_SIZES:
-                    for _j in range(2 if ks != 8 else 1):
+                    for _j in range(4 if ks != 8 else 2):
                         kidx = rng.randrange(10)
                         via = rng.choice(vias)
                         cases.append({'kind': 'pvv', 'via': via, 'pin': rdigits(rng, ln), 'pan': rdigits(rng, pl),
@@ -232,7 +229,7 @@ def gen(rng, tier):
         # ---- PVV with the cipher object replaced: chosen ciphertexts
         for ndec in range(0, 17):
             for style in ('front', 'back', 'mixed', 'mixed'):
-                for _j in range(2 if ndec < 5 else 1):
+                for _j in range(6 if ndec < 5 else 3):
                     cases.append({'kind': 'pvvstub', 'via': rng.choice(vias[:3]), 'pin': rdigits(rng, rng.randrange(4, 13)),
                                   'pan': rdigits(rng, rng.randrange(12, 20)), 'kidx': rng.randrange(10),
                                   'key': rkey(rng, rng.choice(TDES_SIZES)), 'ct': chosen_ct(rng, ndec, style)})
@@ -244,7 +241,7 @@ def gen(rng, tier):
                               'kidx': rng.randrange(10), 'key': rkey(rng, rng.choice(TDES_SIZES)), 'ct': ct})
         # ---- key components in every order
         for n in (0, 1, 2, 3, 4, 5):
-            for j in range(1 if n == 0 else 6 if n < 5 else 3):
+            for j in range(1 if n == 0 else 12 if n < 5 else 4):
                 parts = [rpart(rng) for _ in range(n)]
                 if j == 4 and n:
                     parts[rng.randrange(n)] = rpart(rng, rng.choice([1, 2, 15, 31]))
@@ -384,7 +381,8 @@ def impl(case):
                 'kk': outcome(lambda: keymod.get_zone_master_key(*dup_parts(dict(case, parts=[], pos=[0, 0]))), pair)}
     if k == 'enczmk':
         return {'outs': [outcome(lambda: keymod.get_enc_zone_master_key(case['master'], *[case['parts'][i] for i in od]), pair)
-                         for od in case['orders']]}
+                         for od in case['orders']],
+                'clear': outcome(lambda: keymod.get_zone_master_key(*case['parts']), pair)}
     if k == 'kcv':
         kb = bytes.fromhex(case['key'])
         if case['n'] is None:
@@ -431,7 +429,7 @@ def zmk_entries(parts, outs, master=None):
         for o in outs:
             p = out_pair(o)
             kb = hex_key(p[0]) if p else None
-            if kb is not None and master is None:
+            if kb is not None:
                 keys.append(kb)
     ent = []
     mk = tdes_key(master) if master is not None else None
@@ -489,7 +487,7 @@ def plan(case, io):
     elif k == 'enczmk':
         parts = case['parts']
         od = case['orders'][-1]
-        ent = zmk_entries(parts, [], master=case['master'])
+        ent = zmk_entries(parts, [io.get('clear')], master=case['master'])
         out.append(('enc_zmk', 'enc_zmk %s %s %s' % (table(ent), hs(case['master']), plist([parts[i] for i in od]))))
     elif k == 'kcv':
         kb = bytes.fromhex(case['key'])
@@ -545,7 +543,9 @@ def judge(case, io, mo):
             else:
                 ct = bytes.fromhex(case['ct'])
                 want_calls = [['TripleDES', kb.hex(), 'ECB', tsp.hex()]]
-                if io['calls'] != want_calls:
+                # cryptography keeps the key as the bundle K1 K2 K3 (8 bytes: K K K, 16 bytes: K1 K2 K1)
+                bundle = [['TripleDES', b''.join(tdes_key_bundle(kb)).hex(), 'ECB', tsp.hex()]]
+                if io['calls'] != want_calls and io['calls'] != bundle:
                     bad('pvv-cipher-input-differs', 'cipher object used as %s, expected one TDES-ECB encryption of the TSP under the key: %s'
                         % (io['calls'], want_calls))
             pvv = decimalise(nibbles(ct))
@@ -562,10 +562,13 @@ def judge(case, io, mo):
                 bad('pvv-documented-value', 'documented PVV %s, got %s' % (case['expect'], io['pvv']))
             if 'real_sub' in case and case['real_sub'] != nsub:
                 bad('kat-real-key-list', 'hard-coded tuple expected to need %d substituted digits needs %d' % (case['real_sub'], nsub))
-            spec('tsp_spec', 'OK ' + hs(dstr(tspn[:11]) + str(case['kidx']) + dstr(tspn[12:])), 'pvv-tsp-spec', 'TSP built from the property text')
+            mine = 'OK ' + hs(dstr(tspn))
+            spec('tsp_spec', mine, 'kat-tsp-construction-differs-from-coq-spec', 'TSP built from the property text by the harness')
             spec('pvv_spec', io['pvv'], 'pvv-differs-from-coq-spec', 'decimalisation of %s' % ct.hex())
             model('pvv_ct', io['pvv'], 'pvv_of_ct')
             if 'tsp' in io and not io['tsp'].startswith('RAISE OTHER:AttributeError'):
+                if io['tsp'] != mine:
+                    bad('pvv-tsp-differs-from-construction', 'transformed security parameter %s, built from the property text %s' % (io['tsp'], mine))
                 spec('tsp_spec', io['tsp'], 'pvv-tsp-differs-from-coq-spec', 'transformed security parameter')
         if 'tsp' in io and not io['tsp'].startswith('RAISE OTHER:AttributeError'):
             model('tsp', io['tsp'], 'get_tsp')
@@ -596,21 +599,25 @@ def judge(case, io, mo):
         if k == 'zmk':
             for tag, o in (('xor_first', outs[0]), ('xor_last', outs[-1])):
                 p = out_pair(o)
-                model(tag, 'OK ' + hs(p[0]) if p else o, 'zmk_combine') if (p or not o.startswith('OK')) and not (p is None and m.get(tag, '').startswith('OK')) else None
+                if p:                    # a raise may come from a later step than the combination
+                    model(tag, 'OK ' + hs(p[0]), 'zmk_combine')
             model('zmk', outs[-1], 'get_zone_master_key')
         else:
             model('enc_zmk', outs[-1], 'get_enc_zone_master_key')
     elif k == 'zmkdup':
         if dom:
             comb = ref_combine(case['parts'])
-            want = 'OK ' + pair((hexstr(comb), ref_kcv(pack(comb))))
-            zero = 'OK ' + pair(('0' * 32, ref_kcv(bytes(16))))
-            if io['base'] != want:
-                bad('zmk-key-not-xor-of-components', '%d components: got %s, expected %s' % (len(case['parts']), out_pair(io['base']), out_pair(want)))
-            if io['dup'] != io['base'] or io['dup'] != want:
-                bad('zmk-repeated-component-does-not-cancel', 'with a component given twice: %s, without: %s' % (out_pair(io['dup']), out_pair(io['base'])))
-            if io['kk'] != zero:
-                bad('zmk-repeated-component-does-not-cancel', 'a component given twice alone: %s, expected zeros %s' % (out_pair(io['kk']), out_pair(zero)))
+            want = (hexstr(comb), ref_kcv(pack(comb)))
+            zero = ('0' * 32, ref_kcv(bytes(16)))
+            base, dup, kk = [out_pair(io[x]) or (io[x], io[x]) for x in ('base', 'dup', 'kk')]
+            if base[0] != want[0]:
+                bad('zmk-key-not-xor-of-components', '%d components: got %s, expected %s' % (len(case['parts']), base[0], want[0]))
+            if dup[0] != base[0] or dup[0] != want[0]:
+                bad('zmk-repeated-component-does-not-cancel', 'with a component given twice: %s, without: %s' % (dup[0], base[0]))
+            if kk[0] != zero[0]:
+                bad('zmk-repeated-component-does-not-cancel', 'a component given twice alone: %s, expected zeros' % kk[0])
+            if not ps and (base[1], dup[1], kk[1]) != (want[1], want[1], zero[1]):
+                bad('zmk-check-value-differs', 'key check values %s, expected %s' % ([base[1], dup[1], kk[1]], [want[1], want[1], zero[1]]))
             p = out_pair(io['dup'])
             spec('xor_spec', 'OK ' + hs(p[0]) if p else io['dup'], 'zmk-differs-from-coq-spec', 'combined key')
         p = out_pair(io['dup'])
